@@ -392,6 +392,24 @@ def r4(ctx, F, cfgname):
             ctx.check(ok and bs_ok and len(enums) >= len(chunkers), 'C01.R4', 'signature-producer:%s' % b_.path.split('::')[-1] + ':' + cfgname,
                       'compute(enumerate index, chunk) over chunks(block_size)',
                       'a signature producer in %s does not hash zero-based sequential chunks of block_size' % top, term_loc(b_, bb))
+        elif [o for o in fl.origins(t['args'][0]) if o.kind != 'comb'] and all(
+                o.kind == 'call' and o.key == 'std::iter::Iterator::next' and tuple(o.path)[-1:] == ('0',) for o in fl.origins(t['args'][0]) if o.kind != 'comb'):
+            # `for (i, chunk) in data.chunks(block_size).enumerate()` (or the iterator chain unfolded into that loop): the same
+            # obligations as the closure form, the chunking being in this body
+            chunkers = fl.calls(lambda c2: c2.endswith('::chunks') or c2.endswith('::par_chunks'))
+            enums = fl.calls(lambda c2: c2.endswith('::enumerate'))
+            usize_params = [i for i in range(1, b_.argc + 1) if b_.local_ty(i) == 'usize']
+            bs_ok = bool(chunkers) and len(usize_params) == 1 and all(all(o.kind == 'param' and o.key == usize_params[0] for o in fl.origins(ct['args'][1])) for cb, ct in chunkers)
+            loops_ = fl.cfg.loops()
+            once = all(not any(cb in blocks for blocks in loops_.values()) for cb, ct in chunkers)
+            whole = all(any(o.kind == 'mutcall' and o.key.endswith('::read_to_end') for o in fl.origins(ct['args'][0], mut_calls=True)) or
+                        all(o.kind == 'param' for o in fl.origins(ct['args'][0])) for cb, ct in chunkers)
+            nexts_ = {o.bb for o in fl.origins(t['args'][0]) if o.kind == 'call'}
+            src_ok = all(any(o.kind == 'call' and (o.key.endswith('::chunks') or o.key.endswith('::par_chunks')) for o in iterated_collection(fl, nb_)) for nb_ in nexts_)
+            data_ok = bool(data_o) and all(o.kind == 'call' and o.key == 'std::iter::Iterator::next' and o.bb in nexts_ and tuple(o.path)[-1:] == ('1',) for o in data_o if o.kind != 'comb')
+            ctx.check(bs_ok and once and whole and src_ok and data_ok and len(enums) >= len(chunkers), 'C01.R4', 'signature-producer:%s' % 'closure#0' + ':' + cfgname,
+                      'compute(enumerate index, chunk) over chunks(block_size)',
+                      'a signature producer in %s does not hash zero-based sequential chunks of block_size' % top, term_loc(b_, bb))
         else:
             # async fill loop: index counter starts at 0, +1 per block; data = buffer[..bytes_read]
             ok_idx = idx_t[0] == 'phi'
